@@ -64,10 +64,11 @@ func (d *Def) Line() string {
 	return strings.Join(w, " ")
 }
 
-// parseDefLine is the inverse of Line; used for corpus / replay / shrunk cases.
+// parseDefLine is the inverse of Line (also for a `gso regen` line, which carries a definition in
+// the same form); used for corpus / replay / shrunk cases.
 func parseDefLine(line string) (*Def, error) {
 	w := strings.Fields(line)
-	if len(w) < 2 || w[0] != "gso" || w[1] != "def" {
+	if len(w) < 2 || w[0] != "gso" || (w[1] != "def" && w[1] != "regen") {
 		return nil, fmt.Errorf("not a def line")
 	}
 	d := &Def{}
